@@ -4,7 +4,7 @@ CHECK = {
                         "C18.spec_rejected_unchanged", "C18.spec_deleted_absent", "C18.spec_no_panic",
                         "US.run_sim", "US.step_sim", "US.gen_status", "US.gen_auth_cmp", "US.gen_authz_cmp", "US.gen_upload",
                         "C18.pinned_not_good", "C18.pinned_mismatch_still_writes", "C18.pinned_partial_record_panics",
-                        "C18.pinned_nonpositive_rate_panics"],
+                        "C18.pinned_nonpositive_rate_panics", "C18.pinned_refines_false", "C18.pinned_no_panic_false"],
         "scenarios": ["C18"],
         "reset_ops": ["db.new"],
         "rule": "real bbolt file per script, usermanager.APIRouterOf through httptest + UserManager methods + userPanel.GetUser (shim): "
